@@ -171,6 +171,12 @@ func genC15(t *rapid.T) c15Case {
 	}
 	if rapid.IntRange(0, 9).Draw(t, "boundary_len") == 0 { // byte lengths at the run-length cut-off / regime boundaries (40*2^j, 784, 93750, ...)
 		b := rapid.SampledFrom([]int{40, 80, 160, 320, 640, 1280, 2560, 5120, 10240, 784, 125, 1250}).Draw(t, "blen") + rapid.IntRange(-1, 1).Draw(t, "dlen")
+		if rapid.Bool().Draw(t, "chunky") { // multiples of typical internal chunk sizes (512 .. 65536 bytes), give or take a byte
+			b = rapid.IntRange(1, 4).Draw(t, "chunks")*(rapid.SampledFrom([]int{512, 1024, 2048, 4096, 8192, 16384, 32768, 65536}).Draw(t, "chunk")+rapid.IntRange(-1, 1).Draw(t, "dchunk")) + rapid.IntRange(-1, 1).Draw(t, "dlen2")
+			if b > 70000 && c.Kind == "entry" && tests[c.Test].Key == "lincomp" {
+				b = 4096 + rapid.IntRange(-1, 1).Draw(t, "dlen3")
+			}
+		}
 		if b >= minBytes {
 			nb = b
 		}
